@@ -149,13 +149,15 @@ fn one_case<const N: usize>(ctx: &mut Ctx, idx: usize) {
     let mut ms = edge_vec(&mut ctx.prng, N);
     // one case in four: a message chosen *in relation to the key* so that x + <y, m> = 0 — the signature is then
     // (h, 1) and X~·prod Y~_i^{m_i} = 1; the PS relation holds and verification must say so
+    // (likewise x + <y, m> = 1: both halves of the signature are equal; = -1: they are negatives; = 2)
     if idx % 4 == 1 {
         let k = ctx.prng.gen_range(0..N);
         if kpd.ys[k] != Scalar::zero() {
+            let (target, what) = [(Scalar::zero(), "message:annihilates-the-key"), (Scalar::one(), "message:exponent-one-equal-halves"), (-Scalar::one(), "message:exponent-minus-one"), (Scalar::from(2u64), "message:exponent-two")][(idx / 4) % 4];
             let mut acc = kpd.x;
             for i in 0..N { if i != k { acc += kpd.ys[i] * ms[i]; } }
-            ms[k] = -acc * kpd.ys[k].invert().unwrap();
-            ctx.count("message:annihilates-the-key");
+            ms[k] = (target - acc) * kpd.ys[k].invert().unwrap();
+            ctx.count(what);
         }
     }
     // sign
@@ -326,6 +328,32 @@ fn raw_case<const N: usize>(ctx: &mut Ctx, idx: usize) {
         let s2 = match k { 0 => matching, 1 => matching + Scalar::one(), _ => rand_scalar(&mut ctx.prng) };
         let sig = wire::sig(&ctx.book, &s1, &s2).expect("signature decodes");
         let _ = verify_check(ctx, &pk, &pkd, &sig, &ms, Some(k == 0), if k == 0 { "raw-matching" } else { "raw-non-matching" });
+    }
+    // aliased halves: (P, P), (P, -P), (P, 2P) on the message above, on the all-zero message, on a message orthogonal to
+    // the Y~ part of the key and on one for which X~ + <m, Y~> = g~ (where (P, P) is a valid signature)
+    {
+        let mut msgs: Vec<(&str, Vec<Scalar>)> = vec![("random-message", ms.clone()), ("zero-message", vec![Scalar::zero(); N])];
+        let k = ctx.prng.gen_range(0..N);
+        if pkd.y2s[k] != Scalar::zero() {
+            for (what, target) in [("orthogonal-message", pkd.x2), ("exponent-one-message", pkd.g2), ("exponent-minus-one-message", -pkd.g2)] {
+                // X~ + <m, Y~> = target
+                let mut m = edge_vec(&mut ctx.prng, N);
+                let mut acc = pkd.x2;
+                for i in 0..N { if i != k { acc += pkd.y2s[i] * m[i]; } }
+                m[k] = (target - acc) * pkd.y2s[k].invert().unwrap();
+                msgs.push((what, m));
+            }
+        }
+        for (mw, m) in msgs {
+            let mut acc = pkd.x2;
+            for (y, mi) in pkd.y2s.iter().zip(m.iter()) { acc += y * mi; }
+            for (sw, s2) in [("equal-halves", s1), ("negated-halves", -s1), ("doubled-half", s1 + s1)] {
+                let sig = wire::sig(&ctx.book, &s1, &s2).expect("signature decodes");
+                let expect = s1 * acc == s2 * pkd.g2;
+                ctx.count(&format!("raw-aliased:{}:{}:{}", sw, mw, expect));
+                let _ = verify_check(ctx, &pk, &pkd, &sig, &m, Some(expect), &format!("raw-{}-{}", sw, mw));
+            }
+        }
     }
     // identity sigma1 cannot be decoded
     if wire::sig(&ctx.book, &Scalar::zero(), &matching).is_ok() {
